@@ -161,6 +161,71 @@ func numberLiteralIsJSON(b []byte) bool {
 	return i == n
 }
 
+// stringEscapesAreJSON reports whether every backslash in the content of a (non-block) string literal starts an
+// escape sequence that GraphQL and JSON share: \" \\ \/ \b \f \n \r \t and \u followed by four hex digits.
+func stringEscapesAreJSON(content []byte) bool {
+	n := len(content)
+	for i := 0; i < n; i++ {
+		if content[i] != '\\' {
+			continue
+		}
+		i++
+		if i == n {
+			return false
+		}
+		switch content[i] {
+		case '"', '\\', '/', 'b', 'f', 'n', 'r', 't':
+		case 'u':
+			if i+4 >= n {
+				return false
+			}
+			for k := i + 1; k <= i+4; k++ {
+				c := content[k]
+				if !(c >= '0' && c <= '9' || c >= 'a' && c <= 'f' || c >= 'A' && c <= 'F') {
+					return false
+				}
+			}
+			i += 4
+		default:
+			return false
+		}
+	}
+	return true
+}
+
+// escapeControlBytes returns the content of a (non-block) string literal with every byte below 0x20
+// replaced by its JSON escape: a GraphQL string may contain a raw TAB, a JSON string may not contain
+// any raw control character. Content without such a byte is returned as is, without copying.
+func escapeControlBytes(content []byte) []byte {
+	clean := 0
+	for clean < len(content) && content[clean] >= 0x20 {
+		clean++
+	}
+	if clean == len(content) {
+		return content
+	}
+	out := make([]byte, 0, len(content)+5)
+	out = append(out, content[:clean]...)
+	for i := clean; i < len(content); i++ {
+		c := content[i]
+		switch {
+		case c >= 0x20:
+			out = append(out, c)
+		case c == '\t':
+			out = append(out, '\\', 't')
+		default:
+			lo := c % 16
+			if lo < 10 {
+				lo += '0'
+			} else {
+				lo += 'a' - 10
+			}
+			out = append(out, '\\', 'u', '0', '0', '0'+c/16, lo)
+		}
+	}
+	return out
+}
+
 func (d *Document) writeJSONValue(buf *bytes.Buffer, value Value) error {
 	switch value.Kind {
 	case ValueKindNull:
@@ -204,7 +269,11 @@ func (d *Document) writeJSONValue(buf *bytes.Buffer, value Value) error {
 			// Remove the extra newline that Encode adds
 			buf.Truncate(buf.Len() - 1)
 		} else {
-			buf.Write(quotes.WrapBytes(d.StringValueContentBytes(value.Ref)))
+			content := d.StringValueContentBytes(value.Ref)
+			if !stringEscapesAreJSON(content) {
+				return fmt.Errorf("ValueToJSON: malformed escape sequence in string literal: %s", content)
+			}
+			buf.Write(quotes.WrapBytes(escapeControlBytes(content)))
 		}
 	case ValueKindList:
 		buf.WriteByte(literal.LBRACK_BYTE)
